@@ -5,3 +5,4 @@ CHECK_DEADLOCK FALSE
 CONSTANTS
   MaxTok = 10
   Small = TRUE
+  Members = FALSE
